@@ -194,8 +194,13 @@ theorem mulSmall_ok {s : St} (h : Inv s) {w u v : Nat} (hw : w < s.nv) (hu : u <
               (s.mpzRealloc w ((s.size u).natAbs + (s.size v).natAbs))) = .ok r ∧
       Res s (r.2.setSize w (if neg then -(((s.size u).natAbs + (s.size v).natAbs - (if r.1 = 0 then 1 else 0) : Nat) : Int)
           else (((s.size u).natAbs + (s.size v).natAbs - (if r.1 = 0 then 1 else 0) : Nat) : Int))) w
-        (if neg then -((s.mag u * s.mag v : Nat) : Int) else ((s.mag u * s.mag v : Nat) : Int)) := by
+        (if neg then -((s.mag u * s.mag v : Nat) : Int) else ((s.mag u * s.mag v : Nat) : Int)) ∧
+      ((s.size u).natAbs + (s.size v).natAbs ≤ s.alloc w →
+        Upd s (r.2.setSize w (if neg then -(((s.size u).natAbs + (s.size v).natAbs - (if r.1 = 0 then 1 else 0) : Nat) : Int)
+          else (((s.size u).natAbs + (s.size v).natAbs - (if r.1 = 0 then 1 else 0) : Nat) : Int))) w) := by
   obtain ⟨i1, nv1, size1, val1, a1, _⟩ := realloc_spec h hw ((s.size u).natAbs + (s.size v).natAbs)
+  have hs1 : (s.size u).natAbs + (s.size v).natAbs ≤ s.alloc w → s.mpzRealloc w ((s.size u).natAbs + (s.size v).natAbs) = s :=
+    fun ha => realloc_noop (by omega)
   generalize s.mpzRealloc w ((s.size u).natAbs + (s.size v).natAbs) = s1 at *
   have hw1 : w < s1.nv := by rw [nv1]; exact hw
   have hu1 : u < s1.nv := by rw [nv1]; exact hu
@@ -212,11 +217,13 @@ theorem mulSmall_ok {s : St} (h : Inv s) {w u v : Nat} (hw : w < s.nv) (hu : u <
   by_cases hle : (s.size v).natAbs ≤ (s.size u).natAbs
   · rw [if_pos hle]
     obtain ⟨r, hr, ir, ur, vr⟩ := mul_core_ok i1 hw1 lu lv u1 u2 v1 v2 hv0 hle hpu hpv a1 neg
-    refine ⟨r, hr, ir, by rw [ur.nv, nv1], by rw [vr, hmu, hmv], fun i hi hiw => by rw [ur.value_o i1 hw1 (by rw [nv1]; exact hi) hiw, val1 i hi]⟩
+    refine ⟨r, hr, ⟨ir, by rw [ur.nv, nv1], by rw [vr, hmu, hmv], fun i hi hiw => by rw [ur.value_o i1 hw1 (by rw [nv1]; exact hi) hiw, val1 i hi]⟩,
+      fun ha' => by have := hs1 ha'; subst this; exact ur⟩
   · rw [if_neg hle]
     obtain ⟨r, hr, ir, ur, vr⟩ := mul_core_ok i1 hw1 lv lu v1 v2 u1 u2 hu0 (by omega) hpv hpu (by omega) neg
     rw [Nat.add_comm (s.size v).natAbs] at ir ur vr
-    refine ⟨r, hr, ir, by rw [ur.nv, nv1], by rw [vr, hmu, hmv, Nat.mul_comm], fun i hi hiw => by rw [ur.value_o i1 hw1 (by rw [nv1]; exact hi) hiw, val1 i hi]⟩
+    refine ⟨r, hr, ⟨ir, by rw [ur.nv, nv1], by rw [vr, hmu, hmv, Nat.mul_comm], fun i hi hiw => by rw [ur.value_o i1 hw1 (by rw [nv1]; exact hi) hiw, val1 i hi]⟩,
+      fun ha' => by have := hs1 ha'; subst this; exact ur⟩
 
 /-- mul.c:111-152 -/
 theorem mulPrep_ok {s : St} (h : Inv s) {w u v : Nat} (hw : w < s.nv) (hu : u < s.nv) (hv : v < s.nv) :
@@ -224,7 +231,8 @@ theorem mulPrep_ok {s : St} (h : Inv s) {w u v : Nat} (hw : w < s.nv) (hu : u < 
       Inv s1 ∧ s1.nv = s.nv ∧ wp = s1.ptr w ∧ (s.size u).natAbs + (s.size v).natAbs ≤ s1.alloc w ∧
       s1.load up (s.size u).natAbs = .ok (s.limbs u) ∧ s1.load vp (s.size v).natAbs = .ok (s.limbs v) ∧
       wp ≠ up ∧ wp ≠ vp ∧ (∀ i, i < s.nv → i ≠ w → s1.value i = s.value i) ∧
-      (∀ p, p ∈ fm ++ tmp → ∀ i, i < s.nv → s1.ptr i ≠ p) := by
+      (∀ p, p ∈ fm ++ tmp → ∀ i, i < s.nv → s1.ptr i ≠ p) ∧
+      ((s.size u).natAbs + (s.size v).natAbs ≤ s.alloc w → w ≠ u → w ≠ v → s1 = s ∧ fm = [] ∧ tmp = []) := by
   have hlu := h.load_var hu
   have hlv := h.load_var hv
   by_cases hlt : s.alloc w < (s.size u).natAbs + (s.size v).natAbs
@@ -232,7 +240,7 @@ theorem mulPrep_ok {s : St} (h : Inv s) {w u v : Nat} (hw : w < s.nv) (hu : u < 
     · -- the block of w is an operand: new block now, the old one is released after the product (free_me)
       obtain ⟨i1, nv1, size1, val1, aV, aO, pV, pO, nx, bO, bN⟩ := newBlock_spec h hw _ hlt
       refine ⟨s.next, s.ptr u, s.ptr v, [s.ptr w], [], s.newBlock w ((s.size u).natAbs + (s.size v).natAbs), ?_, i1, nv1, pV.symm,
-        by rw [aV], ?_, ?_, Ne.symm (Nat.ne_of_lt (h.lt u hu)), Ne.symm (Nat.ne_of_lt (h.lt v hv)), val1, ?_⟩
+        by rw [aV], ?_, ?_, Ne.symm (Nat.ne_of_lt (h.lt u hu)), Ne.symm (Nat.ne_of_lt (h.lt v hv)), val1, ?_, fun ha' => by omega⟩
       · simp [mulPrep, MulVariant.c, hlt, hop, pV, pure, Except.pure]
       · rw [load_eq_of_blk (bO _ (Nat.ne_of_lt (h.lt u hu)))]; exact hlu
       · rw [load_eq_of_blk (bO _ (Nat.ne_of_lt (h.lt v hv)))]; exact hlv
@@ -248,7 +256,7 @@ theorem mulPrep_ok {s : St} (h : Inv s) {w u v : Nat} (hw : w < s.nv) (hu : u < 
       have hnu : s.ptr u ≠ s.ptr w := fun e => hwu (h.inj u w hu hw e).symm
       have hnv : s.ptr v ≠ s.ptr w := fun e => hwv (h.inj v w hv hw e).symm
       refine ⟨s.next, s.ptr u, s.ptr v, [], [], s.freshBlock w ((s.size u).natAbs + (s.size v).natAbs), ?_, i1, nv1, pV.symm,
-        by rw [aV], ?_, ?_, Ne.symm (Nat.ne_of_lt (h.lt u hu)), Ne.symm (Nat.ne_of_lt (h.lt v hv)), val1, by simp⟩
+        by rw [aV], ?_, ?_, Ne.symm (Nat.ne_of_lt (h.lt u hu)), Ne.symm (Nat.ne_of_lt (h.lt v hv)), val1, by simp, fun ha' => by omega⟩
       · simp [mulPrep, MulVariant.c, hlt, hop, free_newBlock, pV, pure, Except.pure]
       · rw [load_eq_of_blk (bO _ (Nat.ne_of_lt (h.lt u hu)) hnu)]; exact hlu
       · rw [load_eq_of_blk (bO _ (Nat.ne_of_lt (h.lt v hv)) hnv)]; exact hlv
@@ -262,7 +270,8 @@ theorem mulPrep_ok {s : St} (h : Inv s) {w u v : Nat} (hw : w < s.nv) (hu : u < 
       have hnew : (s.malloc (s.limbs u)).2.load s.next (s.size u).natAbs = .ok (s.limbs u) := by
         have := load_of_blk (malloc_blk_new s (s.limbs u)); rwa [hls_u] at this
       refine ⟨s.ptr w, s.next, (if s.ptr w = s.ptr v then s.next else s.ptr v), [], [s.next], (s.malloc (s.limbs u)).2, ?_, i1, x1.nv,
-        (x1.ptr w).symm, by rw [x1.alloc]; exact ha, hnew, ?_, Nat.ne_of_lt (h.lt w hw), ?_, fun i hi _ => x1.value h hi, ?_⟩
+        (x1.ptr w).symm, by rw [x1.alloc]; exact ha, hnew, ?_, Nat.ne_of_lt (h.lt w hw), ?_, fun i hi _ => x1.value h hi, ?_,
+        fun _ e _ => absurd (h.inj w u hw hu hwu) e⟩
       · have e : s.load (s.ptr w) (s.size u).natAbs = .ok (s.limbs u) := by rw [hwu]; exact hlu
         simp [mulPrep, MulVariant.c, hlt, hwu, St.tmpCopy, bind, Except.bind, e, hlu, pure, Except.pure, St.malloc]
       · by_cases hwv : s.ptr w = s.ptr v
@@ -283,7 +292,8 @@ theorem mulPrep_ok {s : St} (h : Inv s) {w u v : Nat} (hw : w < s.nv) (hu : u < 
         have hnew : (s.malloc (s.limbs v)).2.load s.next (s.size v).natAbs = .ok (s.limbs v) := by
           have := load_of_blk (malloc_blk_new s (s.limbs v)); rwa [hls_v] at this
         refine ⟨s.ptr w, s.ptr u, s.next, [], [s.next], (s.malloc (s.limbs v)).2, ?_, i1, x1.nv,
-          (x1.ptr w).symm, by rw [x1.alloc]; exact ha, x1.load hlu, hnew, hwu, Nat.ne_of_lt (h.lt w hw), fun i hi _ => x1.value h hi, ?_⟩
+          (x1.ptr w).symm, by rw [x1.alloc]; exact ha, x1.load hlu, hnew, hwu, Nat.ne_of_lt (h.lt w hw), fun i hi _ => x1.value h hi, ?_,
+          fun _ _ e => absurd (h.inj w v hw hv hwv) e⟩
         · have e : s.load (s.ptr w) (s.size v).natAbs = .ok (s.limbs v) := by rw [hwv]; exact hlv
           have hwu' : ¬ s.ptr v = s.ptr u := by rw [← hwv]; exact hwu
           simp [mulPrep, MulVariant.c, hlt, hwu, hwu', hwv, St.tmpCopy, bind, Except.bind, e, hlv, pure, Except.pure, St.malloc]
@@ -291,7 +301,8 @@ theorem mulPrep_ok {s : St} (h : Inv s) {w u v : Nat} (hw : w < s.nv) (hu : u < 
           simp at hp; subst hp
           rw [x1.ptr]; exact Nat.ne_of_lt (h.lt i hi)
       · -- all blocks distinct and w large enough: nothing to do
-        refine ⟨s.ptr w, s.ptr u, s.ptr v, [], [], s, ?_, h, rfl, rfl, ha, hlu, hlv, hwu, hwv, fun _ _ _ => rfl, by simp⟩
+        refine ⟨s.ptr w, s.ptr u, s.ptr v, [], [], s, ?_, h, rfl, rfl, ha, hlu, hlv, hwu, hwv, fun _ _ _ => rfl, by simp,
+          fun _ _ _ => ⟨rfl, rfl, rfl⟩⟩
         simp [mulPrep, MulVariant.c, hlt, hwu, hwv, pure, Except.pure]
 
 theorem foldl_free_ptr (l : List Nat) (X : St) (i : Nat) : (l.foldl St.free X).ptr i = X.ptr i := by
@@ -303,8 +314,9 @@ theorem foldl_free_ptr (l : List Nat) (X : St) (i : Nat) : (l.foldl St.free X).p
 theorem mulBig_ok {s : St} (h : Inv s) {w u v : Nat} (hw : w < s.nv) (hu : u < s.nv) (hv : v < s.nv)
     (hzu : s.size u ≠ 0) (hzv : s.size v ≠ 0) (hle : (s.size v).natAbs ≤ (s.size u).natAbs) (neg : Bool) :
     ∃ s', mulBig .c w u v (s.size u).natAbs (s.size v).natAbs neg s = .ok s' ∧
-      Res s s' w (if neg then -((s.mag u * s.mag v : Nat) : Int) else ((s.mag u * s.mag v : Nat) : Int)) := by
-  obtain ⟨wp, up, vp, fm, tmp, s1, hprep, i1, nv1, hwp, ha, hlU, hlV, h1, h2, hval, hfree⟩ := mulPrep_ok h hw hu hv
+      Res s s' w (if neg then -((s.mag u * s.mag v : Nat) : Int) else ((s.mag u * s.mag v : Nat) : Int)) ∧
+      ((s.size u).natAbs + (s.size v).natAbs ≤ s.alloc w → w ≠ u → w ≠ v → Upd s s' w) := by
+  obtain ⟨wp, up, vp, fm, tmp, s1, hprep, i1, nv1, hwp, ha, hlU, hlV, h1, h2, hval, hfree, hsame⟩ := mulPrep_ok h hw hu hv
   subst hwp
   have hw1 : w < s1.nv := by rw [nv1]; exact hw
   obtain ⟨r, hr, ir, ur, vr⟩ := mul_core_ok i1 hw1 hlU hlV (h.mag_ge hu hzu) (h.mag_lt hu) (h.mag_ge hv hzv) (h.mag_lt hv)
@@ -318,16 +330,21 @@ theorem mulBig_ok {s : St} (h : Inv s) {w u v : Nat} (hw : w < s.nv) (hu : u < s
     rw [ur.ptr]; exact hfree p (List.mem_append_left _ hp) i (by rw [nvX] at hi; exact hi))
   obtain ⟨j2, m2, w2⟩ := free_list_inv tmp j1 (fun p hp i hi => by
     rw [foldl_free_ptr, ur.ptr]; exact hfree p (List.mem_append_right _ hp) i (by rw [m1, nvX] at hi; exact hi))
-  refine ⟨_, rfl, j2, by rw [m2, m1, nvX], ?_, fun i hi hiw => ?_⟩
+  refine ⟨_, rfl, ⟨j2, by rw [m2, m1, nvX], ?_, fun i hi hiw => ?_⟩, fun a b c => ?_⟩
   · rw [w2 w (by rw [m1, nvX]; exact hw), w1 w (by rw [nvX]; exact hw), vr]; rfl
   · rw [w2 i (by rw [m1, nvX]; exact hi), w1 i (by rw [nvX]; exact hi), ur.value_o i1 hw1 (by rw [nv1]; exact hi) hiw, hval i hi hiw]
+  · obtain ⟨e1, e2, e3⟩ := hsame a b c
+    subst e1 e2 e3
+    exact ur
 
 /-- mul.c:69-78 -/
 theorem mulOne_ok {s : St} (h : Inv s) {w u v : Nat} (hw : w < s.nv) (hu : u < s.nv) (hv : v < s.nv)
     (hzu : s.size u ≠ 0) (hv1 : (s.size v).natAbs = 1) (neg : Bool) :
     ∃ s', mulOne w u v (s.size u).natAbs neg s = .ok s' ∧
-      Res s s' w (if neg then -((s.mag u * s.mag v : Nat) : Int) else ((s.mag u * s.mag v : Nat) : Int)) := by
+      Res s s' w (if neg then -((s.mag u * s.mag v : Nat) : Int) else ((s.mag u * s.mag v : Nat) : Int)) ∧
+      ((s.size u).natAbs + 1 ≤ s.alloc w → Upd s s' w) := by
   obtain ⟨i1, nv1, size1, val1, a1, _⟩ := realloc_spec h hw ((s.size u).natAbs + 1)
+  have hs1 : (s.size u).natAbs + 1 ≤ s.alloc w → s.mpzRealloc w ((s.size u).natAbs + 1) = s := fun ha => realloc_noop (by omega)
   unfold mulOne
   simp only [bind, Except.bind, pure, Except.pure]
   generalize s.mpzRealloc w ((s.size u).natAbs + 1) = s1 at *
@@ -376,15 +393,17 @@ theorem mulOne_ok {s : St} (h : Inv s) {w u v : Nat} (hw : w < s.nv) (hu : u < s
   have p := put_upd i1 hw1 (toLimbs ((s.size u).natAbs + 1) (val (s1.limbs u) * x) ++ bw.drop ((s.size u).natAbs + 1))
     (val (s1.limbs u) * x) neg (by rw [length_wr' (by omega)]; exact hbwl) (Limbs_wr' (Limbs_toLimbs _ _) hbwL)
     (by rw [hsz]; omega) (val_take_wr _ (by rw [hsz]; omega))
-  refine ⟨_, rfl, p.1, by show (s1.put w _ _).nv = _; rw [p.2.1.nv, nv1], ?_, fun i hi hiw => ?_⟩
+  refine ⟨_, rfl, ⟨p.1, by show (s1.put w _ _).nv = _; rw [p.2.1.nv, nv1], ?_, fun i hi hiw => ?_⟩, fun ha' => ?_⟩
   · show (s1.put w _ _).value w = _
     rw [p.2.2, hmu, hmv]
   · show (s1.put w _ _).value i = _
     rw [p.2.1.value_o i1 hw1 (by rw [nv1]; exact hi) hiw, val1 i hi]
+  · have := hs1 ha'; subst this; exact p.2.1
 
 /-- mpz_mul, every choice of w, u, v -/
 theorem mpz_mul_ok {s : St} (h : Inv s) {w u v : Nat} (hw : w < s.nv) (hu : u < s.nv) (hv : v < s.nv) :
-    ∃ s', mpz_mul w u v s = .ok s' ∧ Res s s' w (s.value u * s.value v) := by
+    ∃ s', mpz_mul w u v s = .ok s' ∧ Res s s' w (s.value u * s.value v) ∧
+      ((s.size u).natAbs + (s.size v).natAbs ≤ s.alloc w → w ≠ u → w ≠ v → Upd s s' w) := by
   rw [← mul_value]
   unfold mpz_mul mpz_mulV
   simp only [MulVariant.c, bind, Except.bind, pure, Except.pure, forall_const]
@@ -395,22 +414,26 @@ theorem mpz_mul_ok {s : St} (h : Inv s) {w u v : Nat} (hw : w < s.nv) (hu : u < 
       rcases hz with e | e
       · rw [h.mag_zero hu (by omega)]; simp
       · rw [h.mag_zero hv (by omega)]; simp
-    refine ⟨_, rfl, i1, u1.nv, by rw [v1, hm0]; simp, fun i hi hiw => u1.value_o h hw hi hiw⟩
+    refine ⟨_, rfl, ⟨i1, u1.nv, by rw [v1, hm0]; simp, fun i hi hiw => u1.value_o h hw hi hiw⟩, fun _ _ _ => u1⟩
   · rw [if_neg hz]
     have hzu : s.size u ≠ 0 := by omega
     have hzv : s.size v ≠ 0 := by omega
     by_cases h1 : (s.size v).natAbs = 1
-    · rw [if_pos h1]; exact mulOne_ok h hw hu hv hzu h1 _
+    · rw [if_pos h1]
+      obtain ⟨s', e, r1, r2⟩ := mulOne_ok h hw hu hv hzu h1 (!decide (sameSign (s.size u) (s.size v)))
+      exact ⟨s', e, r1, fun a _ _ => r2 (by omega)⟩
     · rw [if_neg h1]
       by_cases hsm : (s.size u).natAbs + (s.size v).natAbs ≤ mulKaratsubaThreshold ∧ w ≠ u ∧ w ≠ v
       · rw [if_pos hsm]
-        obtain ⟨r, hr, hres⟩ := mulSmall_ok h hw hu hv hsm.2.1 hsm.2.2 hzu hzv (!decide (sameSign (s.size u) (s.size v)))
-        rw [hr]; exact ⟨_, rfl, hres⟩
+        obtain ⟨r, hr, hres, hupd⟩ := mulSmall_ok h hw hu hv hsm.2.1 hsm.2.2 hzu hzv (!decide (sameSign (s.size u) (s.size v)))
+        rw [hr]; exact ⟨_, rfl, hres, fun a _ _ => hupd a⟩
       · rw [if_neg hsm]
         by_cases hsw : (s.size u).natAbs < (s.size v).natAbs
         · rw [if_pos hsw, Nat.mul_comm (s.mag u)]
-          exact mulBig_ok h hw hv hu hzv hzu (by omega) _
+          obtain ⟨s', e, r1, r2⟩ := mulBig_ok h hw hv hu hzv hzu (by omega) (!decide (sameSign (s.size u) (s.size v)))
+          exact ⟨s', e, r1, fun a b c => r2 (by omega) c b⟩
         · rw [if_neg hsw]
-          exact mulBig_ok h hw hu hv hzu hzv (by omega) _
+          obtain ⟨s', e, r1, r2⟩ := mulBig_ok h hw hu hv hzu hzv (by omega) (!decide (sameSign (s.size u) (s.size v)))
+          exact ⟨s', e, r1, r2⟩
 
 end Mpir.AliasMem
